@@ -179,11 +179,24 @@ class Run:
         except Found as f:
             self._record(f.signature, f.case, f.detail)
         except hypothesis.errors.Flaky as e:
-            # a flaky *violation* is still worth a look, but it is not a
-            # verdict: report as harness trouble
-            raise HarnessError('flaky hypothesis test %s: %s' % (label, e))
+            self._flaky(label, e)
         finally:
             self.in_hypothesis = False
+
+    def _flaky(self, label, e):
+        # Hypothesis saw a violation that did not repeat on re-execution.
+        # The harness side of every check is deterministic, so a violation
+        # that comes and goes means the code under test answered the same
+        # case in two ways; the recorded case is reported (unshrunk) and
+        # marked as such.
+        founds = [x for x in getattr(e, 'exceptions', ())
+                  if isinstance(x, Found)]
+        if not founds:
+            raise HarnessError('flaky hypothesis test %s: %s' % (label, e))
+        f = founds[0]
+        self._record(f.signature, f.case, 'NOT REPRODUCED on immediate '
+                     're-execution of the same case (outcome varies between '
+                     'executions): ' + str(f.detail))
 
     def machine(self, label, machine_cls, max_examples, steps, shard=0):
         import hypothesis
@@ -206,7 +219,7 @@ class Run:
         except Found as f:
             self._record(f.signature, f.case, f.detail)
         except hypothesis.errors.Flaky as e:
-            raise HarnessError('flaky state machine %s: %s' % (label, e))
+            self._flaky(label, e)
         finally:
             self.in_hypothesis = False
 
